@@ -249,6 +249,8 @@ class Polyhedron(Shape3D):
             new_faces[labels[i]].update(face)
 
         self._faces = [np.asarray(list(f)) for f in new_faces]
+        # the memoised edge list describes the old faces
+        self.__dict__.pop("edges", None)
         self.sort_faces()
 
     @property
